@@ -5,6 +5,7 @@ import (
 	"fmt"
 	"sort"
 	"strings"
+	"sync/atomic"
 	"time"
 
 	appsv1 "k8s.io/api/apps/v1"
@@ -58,19 +59,26 @@ func (s *Sim) alarm(prop, clause, msg string) {
 	s.Alarms = append(s.Alarms, Alarm{Prop: prop, Sig: sig, Msg: msg})
 }
 
+var tappInformerStuck int32
+
 func tappBarrier(s *Sim, wl *Workload) {
 	if s.W.Plugin == nil || !s.W.WithTApp {
 		return
 	}
 	ko := util.NewKeyObj("tapp_", NS, wl.Name, wl.Name+"-0", "")
-	deadline := time.Now().Add(180 * time.Second) // watchdog only: a real informer goroutine has to be scheduled, which can take long on a loaded machine
+	wait := 180 * time.Second // watchdog only: a real informer goroutine has to be scheduled, which can take long on a loaded machine
+	if atomic.LoadInt32(&tappInformerStuck) != 0 {
+		wait = 2 * time.Second // it already failed to follow once in this process: the run is inconclusive anyway
+	}
+	deadline := time.Now().Add(wait)
 	for {
 		exist, rep, err := s.W.Plugin.VerifAppReplicas(ko)
 		if err == nil && exist == wl.Exists && (!wl.Exists || int(rep) == wl.Replicas) {
 			return
 		}
 		if time.Now().After(deadline) {
-			s.Inconclusive = append(s.Inconclusive, "tapp informer barrier timed out")
+			atomic.StoreInt32(&tappInformerStuck, 1)
+			s.Inconclusive = append(s.Inconclusive, "tapp informer barrier timed out (the plugin's dynamic informer view of the TApp does not follow API truth)")
 			return
 		}
 		time.Sleep(2 * time.Millisecond)
